@@ -28,6 +28,10 @@ def import_desper():
     return mod
 
 
+class ReplayDone(Exception):
+    """--replay mode: the recorded history has been executed; skip the rest of the check."""
+
+
 class MachineryError(Exception):
     """Exit code 2: the check itself is broken (never confused with a violation)."""
 
@@ -75,6 +79,9 @@ class Result:
                     action_constraints=(), timeout=1800, count=True, workers=None, deadlock=False):
         """Run TLC exhaustively. With expect_violation the run must report exactly that name
         (as-implemented switch runs: non-vacuity of the invariant)."""
+        from . import replay as _rp
+        if _rp.REPLAY is not None and _rp.REPLAY.get('done'):
+            raise ReplayDone()
         cfg = os.path.join(self.scratch, '%s_%s.cfg' % (module, name))
         tlc.write_cfg(cfg, spec=spec, constants=constants, invariants=invariants, properties=properties,
                       constraints=constraints, overrides=overrides, view=view,
@@ -164,7 +171,7 @@ class Result:
         ev = {'property_id': self.prop, 'tier': self.tier, 'seed': self.seed, 'level': self.level,
               'coverage': cov, 'assumptions': self.assumptions, 'wall_s': round(time.time() - self.t0, 1),
               'violations': len(self.violations)}
-        with open(os.path.join(EVIDENCE_DIR, self.prop + '.json'), 'w') as f:
+        with open(os.path.join(EVIDENCE_DIR, self.prop + getattr(self, 'evidence_suffix', '') + '.json'), 'w') as f:
             json.dump(ev, f, indent=1, default=str)
         for summary, p in paths:
             print('VIOLATION property=%s replay=%s  # %s' % (self.prop, p, summary[:300]))
